@@ -11,6 +11,7 @@ fn fails_same(check: CheckFn, prop: &str, sc: &Scenario, invariant: &str, class:
     let inv = invariant.to_string();
     let class = class.to_string();
     std::env::set_var("VERIF_HASH_SEED", sc.compile.hash_seed.to_string());
+    simcommon::new_hash_epoch();
     std::thread::Builder::new()
         .stack_size(256 << 20)
         .spawn(move || {
